@@ -151,6 +151,7 @@ func main() {
 			exit = 1
 			return
 		}
+		setOSFlags(p)
 		c := &Ctx{P: p}
 		for _, id := range ids {
 			registry[id].Run(c)
